@@ -9,7 +9,7 @@ CONSTANTS
   AllowDupStart = FALSE
   AllowSilentInit = FALSE
   AllowRestartRace = FALSE
-  AllowLateStart = TRUE
+  AllowLateStart = FALSE
   AllowDoubleError = FALSE
   SInsts = {}
   SIds = {}
@@ -36,7 +36,7 @@ CONSTANTS
   FixDup = TRUE
   FixDel = TRUE
   FixInit = TRUE
-  FixLate = FALSE
+  FixLate = TRUE
   PreAcked = FALSE
   Bursts = TRUE
   Sync = TRUE
